@@ -127,44 +127,75 @@ def clean_cfg(r, extra=None):
 
 
 def mods_for(r, dlp_dims, p):
-    """1-3 modifications that may keep the basis; rows/cols counts tracked"""
-    m, n = dlp_dims
+    """1-3 modifications that may keep the basis; sides/bounds stay consistent (lhs <= rhs, lower <= upper)"""
+    F = Fraction
+    lo = [c[1] for c in p.cols]
+    up = [c[2] for c in p.cols]
+    lhs = [q[0] for q in p.rows]
+    rhs = [q[2] for q in p.rows]
     out = []
+
+    def tok(x, neg):
+        return ("-inf" if neg else "inf") if x is None else lpgen.qs(x)
     for _ in range(r.randint(1, 3)):
+        m, n = len(lhs), len(lo)
         k = r.randrange(11)
-        v = r.randint(-6, 6)
+        v = F(r.randint(-6, 6))
         if k == 0 and n > 0:
-            out.append(("chglo", "chglo %d %s" % (r.randrange(n), r.choice(["-inf", str(v)]))))
+            j = r.randrange(n)
+            nv = r.choice([None, v if up[j] is None else min(v, up[j])])
+            lo[j] = nv
+            out.append(("chglo", "chglo %d %s" % (j, tok(nv, True))))
         elif k == 1 and n > 0:
-            out.append(("chgup", "chgup %d %s" % (r.randrange(n), r.choice(["inf", str(v + 6)]))))
+            j = r.randrange(n)
+            nv = r.choice([None, v + 6 if lo[j] is None else max(v + 6, lo[j])])
+            up[j] = nv
+            out.append(("chgup", "chgup %d %s" % (j, tok(nv, False))))
         elif k == 2 and n > 0:
-            lo = v
-            out.append(("chgbounds", "chgbounds %d %d %d" % (r.randrange(n), lo, lo + r.choice([0, 0, 3, 7]))))
+            j = r.randrange(n)
+            lo[j], up[j] = v, v + r.choice([0, 0, 3, 7])
+            out.append(("chgbounds", "chgbounds %d %s %s" % (j, tok(lo[j], True), tok(up[j], False))))
         elif k == 3 and m > 0:
-            out.append(("chglhs", "chglhs %d %s" % (r.randrange(m), r.choice(["-inf", str(v - 8)]))))
+            i = r.randrange(m)
+            nv = r.choice([None, v - 8 if rhs[i] is None else min(v - 8, rhs[i])])
+            lhs[i] = nv
+            out.append(("chglhs", "chglhs %d %s" % (i, tok(nv, True))))
         elif k == 4 and m > 0:
-            out.append(("chgrhs", "chgrhs %d %s" % (r.randrange(m), r.choice(["inf", str(v + 8)]))))
+            i = r.randrange(m)
+            nv = r.choice([None, v + 8 if lhs[i] is None else max(v + 8, lhs[i])])
+            rhs[i] = nv
+            out.append(("chgrhs", "chgrhs %d %s" % (i, tok(nv, False))))
         elif k == 5 and m > 0:
-            lo = v - 6
-            out.append(("chgrange", "chgrange %d %d %d" % (r.randrange(m), lo, lo + r.choice([0, 4, 12]))))
+            i = r.randrange(m)
+            lhs[i], rhs[i] = v - 6, v - 6 + r.choice([0, 4, 12])
+            out.append(("chgrange", "chgrange %d %s %s" % (i, tok(lhs[i], True), tok(rhs[i], False))))
         elif k == 6 and n > 0:
             out.append(("chgobj", "chgobj %d %d" % (r.randrange(n), v)))
         elif k == 7:
             ents = " ".join("%d:%d" % (j, r.choice([-2, -1, 1, 3])) for j in range(n) if r.random() < 0.6)
-            out.append(("addrow", "addrow %s %s %s" % (r.choice(["-inf", str(v - 10)]), str(v + 10), ents)))
-            m += 1
+            a, b = r.choice([None, v - 10]), v + 10
+            lhs.append(a)
+            rhs.append(b)
+            out.append(("addrow", "addrow %s %s %s" % (tok(a, True), tok(b, False), ents)))
         elif k == 8:
             ents = " ".join("%d:%d" % (i, r.choice([-2, -1, 1, 3])) for i in range(m) if r.random() < 0.6)
-            lo = r.choice(["-inf", str(v)])
-            up = r.choice(["inf", str(v + 5)])
-            out.append(("addcol", "addcol %d %s %s %s" % (r.randint(-4, 4), lo, up, ents)))
-            n += 1
+            a = r.choice([None, v])
+            b = r.choice([None, v + 5])
+            lo.append(a)
+            up.append(b)
+            out.append(("addcol", "addcol %d %s %s %s" % (r.randint(-4, 4), tok(a, True), tok(b, False), ents)))
         elif k == 9 and m > 1:
-            out.append(("rmrow", "rmrow %d" % r.randrange(m)))
-            m -= 1
+            i = r.randrange(m)
+            lhs[i], rhs[i] = lhs[-1], rhs[-1]          # the last row moves into the hole
+            lhs.pop()
+            rhs.pop()
+            out.append(("rmrow", "rmrow %d" % i))
         elif k == 10 and n > 1:
-            out.append(("rmcol", "rmcol %d" % r.randrange(n)))
-            n -= 1
+            j = r.randrange(n)
+            lo[j], up[j] = lo[-1], up[-1]
+            lo.pop()
+            up.pop()
+            out.append(("rmcol", "rmcol %d" % j))
     return out
 
 
@@ -197,26 +228,26 @@ def part_histories(ck, exe, model):
         cid = "h%d" % k
         steps = ["NEW " + lpgen.cfg_text(cfg)]
         if kind == "plain":
-            steps += ["SOLVE cold S", "DUMP after-solve A", "SOLVE warm S", "DUMP after-warm A", "SOLVE fresh F"]
+            steps += ["SOLVE cold S", "DUMP after-solve A", "SOLVE warm S", "DUMP after-warm A", "SOLVE fresh F", "SOLVE coldns C simplifier=0"]
         elif kind == "abort":
             lim = r.choice([0, 1, 1, 2, 3, 5])
             steps = ["NEW " + lpgen.cfg_text(dict(cfg, iterlimit=lim)), "SOLVE limited S", "DUMP after-abort A", "SOLVE fresh F iterlimit=-1",
-                     "SOLVE warm S iterlimit=-1", "DUMP after-warm A", "SOLVE cold C iterlimit=-1"]
+                     "SOLVE warm S iterlimit=-1", "DUMP after-warm A", "SOLVE cold C iterlimit=-1", "SOLVE coldns C iterlimit=-1 simplifier=0"]
         elif kind == "setbasis":
             rows, cols = bc.random_valid_basis(r, p)
-            steps += ["SETB sb %s %s" % (bc.sarg(rows), bc.sarg(cols)), "DUMP after-setbasis A", "SOLVE warm S", "DUMP after-warm A", "SOLVE cold C"]
+            steps += ["SETB sb %s %s" % (bc.sarg(rows), bc.sarg(cols)), "DUMP after-setbasis A", "SOLVE warm S", "DUMP after-warm A", "SOLVE cold C", "SOLVE coldns C simplifier=0"]
         elif kind == "mods":
             steps += ["SOLVE cold0 S", "DUMP after-solve A"]
             for (mk, ml) in mods_for(r, (p.m, p.n), p):
                 steps += ["MOD %s %s" % (mk, ml), "DUMP after-mod:%s A" % mk]
-            steps += ["SOLVE warm S", "DUMP after-warm A", "SOLVE cold C"]
+            steps += ["SOLVE warm S", "DUMP after-warm A", "SOLVE cold C", "SOLVE coldns C simplifier=0"]
         else:
             # LP held outside the solver (state of _preprocessAndSolveReal, reached through private members): setBasis, modifications
             rows, cols = bc.random_valid_basis(r, p)
             steps += ["DETACH", "SETB sb %s %s" % (bc.sarg(rows), bc.sarg(cols)), "DUMP outside-setbasis A"]
             for (mk, ml) in mods_for(r, (p.m, p.n), p):
                 steps += ["MOD %s %s" % (mk, ml), "DUMP outside-mod:%s A" % mk]
-            steps += ["SOLVE warm S", "DUMP after-warm A", "SOLVE cold C"]
+            steps += ["SOLVE warm S", "DUMP after-warm A", "SOLVE cold C", "SOLVE coldns C simplifier=0"]
         H.append((cid, p, cfg, kind, steps))
     htxt = ""
     for (cid, p, cfg, kind, steps) in H:
@@ -277,6 +308,12 @@ def part_histories(ck, exe, model):
             if not d.has:
                 continue
             base = tag if not tag.startswith("after-warm") else "after-warm"
+            if d.loaded and int(d.d["bstat"]) <= -2:
+                st = bc.kv(seq[idx - 1])["status"] if after_solve else "-"
+                ck.violation("hasbasis-without-solver-basis:%s" % st,
+                             "hasBasis() is true at '%s' but the solver holds no basis (basis status NO_PROBLEM): getBasis returns rows=%s cols=%s "
+                             "(%d basic variables for %d rows)" % (tag, d.rows, d.cols, len(d.basic_set()), d.m), dict(ctx, at=tag))
+                continue
             if d.unsafe:
                 ck.violation("outside-array-size:%s" % tag.split(":")[-1],
                              "with the LP outside the solver, after '%s' hasBasis() is true but the stored status arrays have sizes %d/%d for %d rows/%d columns" % (
@@ -316,29 +353,59 @@ def part_histories(ck, exe, model):
                         st, d.rows, d.cols), dict(ctx, at=tag, rows=d.rows, cols=d.cols))
         # warm starts
         cold = solves.get("cold")
+        coldns = solves.get("coldns")
         if kind == "abort":
             lim = solves.get("limited")
             if lim:
                 ck.count("abort-status:" + lim["status"])
+        # the basis the warm solves start from: the last dump before "SOLVE warm"
+        start = None
+        di2 = -1
+        for l in seq:
+            if l.startswith("DUMP "):
+                di2 += 1
+                start = dumps[cid][di2][1]
+            if l.startswith("SOLVE warm") or l.startswith("SOLVE fresh"):
+                break
+        free_nb_row = bool(start is not None and start.has and not start.unsafe and any(
+            start.rows[i] == "Z" and start.lhs[i] is None and start.rhs[i] is None for i in range(min(start.m, len(start.rows)))))
+        inconclusive = lambda st: st.startswith("ABORT") or st in ("ERROR", "SINGULAR", "UNKNOWN", "NO_PROBLEM", "NOT_INIT")
+        if cold is not None and coldns is not None and not inconclusive(cold["status"]) and not inconclusive(coldns["status"]) \
+                and cold["status"] != "RUNNING" and coldns["status"] != "RUNNING" and not compatible(cold["status"], coldns["status"]):
+            ck.count("cold-verdict-depends-on-presolve:%s/%s" % (cold["status"], coldns["status"]))
         if cold is not None:
+            refs = [c for c in (cold, coldns) if c is not None and not inconclusive(c["status"]) and c["status"] != "RUNNING"]
             for w in ("warm", "fresh"):
                 s2 = solves.get(w)
-                if s2 is None:
+                if s2 is None or not refs:
+                    if s2 is not None:
+                        ck.count("cold-solve-not-conclusive:" + cold["status"])
                     continue
                 ck.count("warm-compared:%s:%s" % (kind, w))
                 sig_ctx = "%s:%s" % (kind, w)
-                if cold["status"].startswith("ABORT") or cold["status"] in ("ERROR", "SINGULAR", "UNKNOWN"):
-                    ck.count("cold-solve-not-conclusive:" + cold["status"])
-                    continue
-                if not compatible(s2["status"], cold["status"]):
-                    ck.violation("warmstart-status:%s:%s->%s" % (sig_ctx, cold["status"], s2["status"]),
-                                 "a solve started from the returned basis (%s, history '%s') ends %s, the solve from scratch ends %s" % (w, kind, s2["status"], cold["status"]),
-                                 dict(ctx, warm=s2, cold=cold))
-                elif cold["status"] == "OPTIMAL":
-                    v1, v2 = lpgen.dy2fr(cold.get("obj", "nan")), lpgen.dy2fr(s2.get("obj", "nan"))
-                    if v1 is None or v2 is None or abs(float(v1 - v2)) > OBJ_TOL * (1 + abs(float(v1))):
-                        ck.violation("warmstart-objective:%s" % sig_ctx, "warm start (%s) reaches objective %s, cold solve %s" % (
-                            w, None if v2 is None else float(v2), None if v1 is None else float(v1)), dict(ctx, warm=s2, cold=cold))
+                okst = [c for c in refs if compatible(s2["status"], c["status"])]
+                if not okst:
+                    if free_nb_row:
+                        sig = "warmstart-free-nonbasic-row:status"
+                    else:
+                        sig = "warmstart-status:%s:%s->%s" % (sig_ctx, cold["status"], s2["status"])
+                    ck.violation(sig, "a solve started from the reported basis (%s, history '%s') ends %s, the solve from scratch ends %s%s" % (
+                        w, kind, s2["status"], cold["status"], " [the start basis has a free row that is non-basic (ZERO)]" if free_nb_row else ""),
+                        dict(ctx, warm=s2, cold=cold, coldns=coldns, start_rows=start.rows if start else None, start_cols=start.cols if start else None))
+                elif s2["status"] == "OPTIMAL":
+                    good = False
+                    v2 = lpgen.dy2fr(s2.get("obj", "nan"))
+                    vals = []
+                    for c in okst:
+                        v1 = lpgen.dy2fr(c.get("obj", "nan"))
+                        vals.append(None if v1 is None else float(v1))
+                        if v1 is not None and v2 is not None and abs(float(v1 - v2)) <= OBJ_TOL * (1 + abs(float(v1))):
+                            good = True
+                    if not good:
+                        sig = "warmstart-free-nonbasic-row:objective" if free_nb_row else "warmstart-objective:%s" % sig_ctx
+                        ck.violation(sig, "warm start (%s, history '%s') reaches objective %s, cold solve %s%s" % (
+                            w, kind, None if v2 is None else float(v2), vals, " [the start basis has a free row that is non-basic (ZERO)]" if free_nb_row else ""),
+                            dict(ctx, warm=s2, cold=cold, coldns=coldns, start_rows=start.rows if start else None, start_cols=start.cols if start else None))
         if k_sample(ck, cid):
             ck.sample({"part": "history", "kind": kind, "lp": p.text(cid), "steps": steps, "solves": {k: v["status"] for k, v in solves.items()}})
     if crashed:
